@@ -358,6 +358,226 @@ impl<K: Ord, V: Val<A>, A: Ord + Hash + Clone> CmRDT for Map<K, V, A> {
 //@end
 }
 
+//@extract enum src/map.rs CvRDTValidation
+pub enum CvRDTValidation<K, V: CvRDT, A> {
+    DoubleSpentDot {
+        dot: Dot<A>,
+        our_key: K,
+        their_key: K,
+    },
+
+    Value(V::Validation),
+}
+//@end
+
+/// usage hypotheses on a nested value type that is also state-replicated
+pub open spec fn cval_ok<V: Val<A> + CvRDT, A: Ord>() -> bool {
+    &&& forall|v: V| #![trigger v.cm_inv()] #![trigger v.cv_inv()] v.cm_inv() <==> v.cv_inv()
+    &&& forall|v: V, w: V| v.cv_inv() && w.cv_inv() ==> #[trigger] v.cv_pre(&w)
+}
+
+/// dot (a, n) is a current witness of key k in s and of a different key k2 in o
+pub open spec fn kconflict<K: Ord, V: Val<A>, A: Ord + Hash>(s: Map<K, V, A>, o: Map<K, V, A>, k: K, k2: K, a: A) -> bool {
+    s.has(k) && o.has(k2) && k != k2 && cnt(s.ec(k), a) != 0 && cnt(s.ec(k), a) == cnt(o.ec(k2), a)
+}
+pub open spec fn kdouble_spent<K: Ord, V: Val<A>, A: Ord + Hash>(s: Map<K, V, A>, o: Map<K, V, A>) -> bool {
+    exists|k: K, k2: K, a: A| #[trigger] kconflict(s, o, k, k2, a)
+}
+
+/// value layer of merge for a key that survives and that no pending remove of either side names
+pub open spec fn merge_val_post<K: Ord, V: Val<A> + CvRDT, A: Ord + Hash>(old_: Map<K, V, A>, other: Map<K, V, A>, new_: Map<K, V, A>, k: K) -> bool {
+    if old_.has(k) && other.has(k) {
+        // both sides hold the key: the values are merged, then everything both sides had seen under the key and
+        // that is no longer witnessed (entry clocks minus the surviving common clock) is reset
+        exists|m1: V, c: VClock<A>, j: SMap<A, u64>| #[trigger] V::cv_post(&old_.val(k), &other.val(k), &m1) && #[trigger] is_join(j, other.ec(k), old_.ec(k))
+            && c@ == vsub(j, new_.ec(k)) && #[trigger] V::rr_post(&m1, &c, &new_.val(k))
+    } else if old_.has(k) {
+        exists|c: VClock<A>| c@ == vsub(other.cl(), new_.ec(k)) && #[trigger] V::rr_post(&old_.val(k), &c, &new_.val(k))
+    } else {
+        exists|c: VClock<A>| c@ == vsub(old_.cl(), new_.ec(k)) && #[trigger] V::rr_post(&other.val(k), &c, &new_.val(k))
+    }
+}
+
+/// exact effect of Map::merge: key layer exactly as Orswot::merge; value layer as merge_val_post
+pub open spec fn merge_post_map<K: Ord, V: Val<A> + CvRDT, A: Ord + Hash>(old_: Map<K, V, A>, other: Map<K, V, A>, new_: Map<K, V, A>) -> bool {
+    &&& is_join(new_.cl(), old_.cl(), other.cl())
+    &&& forall|k: K, a: A| #![trigger cnt(new_.ec(k), a)] cnt(new_.ec(k), a) == ({
+            let x = mrg(cnt(old_.ec(k), a), cnt(other.ec(k), a), cnt(old_.cl(), a), cnt(other.cl(), a));
+            if kcovered_by(old_.defs(), k, a, x) || kcovered_by(other.defs(), k, a, x) { 0 } else { x } })
+    &&& forall|k: K| #[trigger] new_.has(k) == ((old_.has(k) || other.has(k)) && new_.ec(k) != SMap::<A, u64>::empty())
+    &&& forall|k: K| !named_by(old_.defs(), k) && !named_by(other.defs(), k) && #[trigger] new_.has(k) ==> merge_val_post(old_, other, new_, k)
+    &&& forall|c: VClock<A>| #![trigger new_.defs().contains_key(c)] new_.defs().contains_key(c) <==> ((old_.defs().contains_key(c) || other.defs().contains_key(c)) && !vle(c@, new_.cl()))
+    &&& forall|c: VClock<A>| #![trigger new_.defs()[c]] new_.defs().contains_key(c) ==> new_.defs()[c]@ == old_.dm(c).union(other.dm(c))
+}
+
+/// pass 1 of merge: what happens to an entry of self (closure result)
+spec fn mkeep1<K, V: Val<A>, A: Ord>(p: (K, Entry<V, A>), o: Option<(K, Entry<V, A>)>, other_has: bool, oc: SMap<A, u64>) -> bool {
+    if other_has { o == Some(p) }
+    else if vle(p.1.clock@, oc) { o is None }
+    else { o matches Some(q) && q.0 == p.0 && q.1.clock@ == vsub(p.1.clock@, oc) && q.1.val.cm_inv()
+           && exists|c: VClock<A>| c@ == vsub(oc, q.1.clock@) && #[trigger] V::rr_post(&p.1.val, &c, &q.1.val) }
+}
+
+impl<K: Ord + Clone, V: Val<A> + CvRDT, A: Ord + Hash + Clone> CvRDT for Map<K, V, A> {
+    type Validation = CvRDTValidation<K, V, A>;
+    open spec fn cv_inv(&self) -> bool { mbase_ok::<K, V, A>() && cval_ok::<V, A>() && self.wf() }
+    open spec fn cv_pre(&self, other: &Self) -> bool { clone_ok::<A>() }
+    open spec fn cv_post(old_: &Self, other: &Self, new_: &Self) -> bool { merge_post_map(*old_, *other, *new_) }
+
+    #[verifier::external_body]
+    fn validate_merge(&self, other: &Self) -> Result<(), Self::Validation> { unimplemented!() }
+
+//@extract fn src/map.rs "CvRDT for Map" merge
+    fn merge(&mut self, other: Self)
+    //@ ensures merge_post_map(*old(self), other, *final(self)),
+    {
+        //@ proof { old(self).lemma_wf(); other.lemma_wf(); }
+        //@ let ghost e0 = self.entries@;
+        self.entries = /*@ shim_btreemap_filter_map_collect( @*/ mem::take(&mut self.entries)
+            /*@<*/ .into_iter()
+            .filter_map( /*@>*/ /*@ , @*/ /*@<*/ | /*@>*/ /*@<pat*/ (key, mut entry) /*@>*/ /*@<*/ | /*@>*/ /*@ |p: (K, Entry<V, A>)| -> (o: Option<(K, Entry<V, A>)>)
+                requires actor_ok::<A>(), clone_ok::<A>(), actor_ok::<K>(), val_ok::<V, A>(), nz(p.1.clock@), p.1.val.cm_inv(), nz(other.clock@),
+                ensures mkeep1(p, o, other.entries@.contains_key(p.0), other.clock@)
+            { let $pat = p; @*/ {
+                if !other.entries.contains_key(&key) {
+                    // other doesn't contain this entry because it:
+                    //  1. has seen it and dropped it
+                    //  2. hasn't seen it
+                    //@ proof { lemma_pcmp_code(other.clock@, entry.clock@); }
+                    if other.clock >= entry.clock {
+                        // other has seen this entry and dropped it
+                        None
+                    } else {
+                        // the other map has not seen this version of this
+                        // entry, so add it. But first, we have to remove any
+                        // information that may have been known at some point
+                        // by the other map about this key and was removed.
+                        //@ let ghost v0 = entry.val;
+                        entry.clock.reset_remove(&other.clock);
+                        let mut removed_information = other.clock.clone();
+                        removed_information.reset_remove(&entry.clock);
+                        entry.val.reset_remove(&removed_information);
+                        //@ proof { assert(removed_information@ == vsub(other.clock@, entry.clock@)); assert(V::rr_post(&v0, &removed_information, &entry.val)); }
+                        Some((key, entry))
+                    }
+                } else {
+                    Some((key, entry))
+                }
+            } /*@ } @*/ )
+            /*@<*/ .collect() /*@>*/ ;
+        //@ let ghost s1 = *self;
+        //@ proof { lemma_mmerge_pass1(*old(self), other, s1); }
+
+        //@ let ov = shim_btreemap_into_vec(other.entries);
+        //@ let ghost ovs = ov@;
+        for (key, mut entry) in /*@ it: ov @*/ /*@<*/ other.entries /*@>*/
+        //@ invariant
+        //@     mbase_ok::<K, V, A>(), cval_ok::<V, A>(), clone_ok::<A>(), old(self).wf(), other.wf(), self.wf(), s1.wf(), it.seq() == ovs,
+        //@     self.cl() == old(self).cl(), self.defs() == old(self).defs(),
+        //@     forall|i: int| 0 <= i < ovs.len() ==> other.entries@.contains_key((#[trigger] ovs[i]).0) && other.entries@[ovs[i].0] == ovs[i].1,
+        //@     forall|i: int, j: int| 0 <= i < j < ovs.len() ==> (#[trigger] ovs[i]).0 != (#[trigger] ovs[j]).0,
+        //@     forall|k: K| other.entries@.contains_key(k) ==> exists|i: int| 0 <= i < ovs.len() && (#[trigger] ovs[i]).0 == k,
+        //@     forall|m: K| other.has(m) ==> #[trigger] s1.ec(m) == old(self).ec(m) && s1.has(m) == old(self).has(m) && (s1.has(m) ==> s1.val(m) == old(self).val(m)),
+        //@     // keys of `other` already visited are final; the rest is still as pass 1 left it
+        //@     forall|m: K, a: A| #![trigger cnt(self.ec(m), a)] cnt(self.ec(m), a) == (
+        //@         if exists|j: int| 0 <= j < it.index@ && (#[trigger] ovs[j]).0 == m { mrg(cnt(old(self).ec(m), a), cnt(other.ec(m), a), cnt(old(self).cl(), a), cnt(other.cl(), a)) }
+        //@         else { cnt(s1.ec(m), a) }),
+        //@     forall|m: K| #[trigger] self.has(m) == (self.ec(m) != SMap::<A, u64>::empty()),
+        //@     forall|m: K| !(exists|j: int| 0 <= j < it.index@ && (#[trigger] ovs[j]).0 == m) && #[trigger] self.has(m) ==> s1.has(m) && self.val(m) == s1.val(m),
+        //@     forall|m: K| (exists|j: int| 0 <= j < it.index@ && (#[trigger] ovs[j]).0 == m) && #[trigger] self.has(m) ==> merge_val_post(*old(self), other, *self, m),
+        {
+            //@ let ghost pre = *self;
+            //@ let ghost idx = it.index@;
+            //@ let ghost oe = entry;
+            //@ proof { pre.lemma_wf(); assert(other.entries@.contains_key(ovs[idx].0)); assert(key == ovs[idx].0 && entry == ovs[idx].1); assert(other.has(key) && other.ec(key) == oe.clock@ && other.val(key) == oe.val); assert(nz(oe.clock@) && oe.clock@ != SMap::<A, u64>::empty() && oe.val.cm_inv()); }
+            if let Some(our_entry) = self.entries.get_mut(&key) {
+                // SUBTLE: this entry is present in both maps, BUT that doesn't mean we
+                // shouldn't drop it!
+                // Perfectly possible that an item in both sets should be dropped
+                //@ let ghost se = *our_entry;
+                //@ proof { assert(pre.entries@.contains_key(key) && se == pre.entries@[key]); assert(pre.wf()); assert(pre.entries@.contains_key(key)); assert(nz(pre.entries@[key].clock@)); assert(pre.entries@[key].val.cm_inv()); assert(nz(se.clock@) && se.val.cm_inv()); assert(se.val.cv_inv() && oe.val.cv_inv() && se.val.rr_inv()); }
+                let mut common = VClock::intersection(&entry.clock, &our_entry.clock);
+                //@ proof { c10_vsub_nz(entry.clock@, self.clock@); c10_vsub_nz(se.clock@, other.clock@); }
+                common.merge(entry.clock.clone_without(&self.clock));
+                common.merge(our_entry.clock.clone_without(&other.clock));
+                //@ proof { lemma_common(common@, entry.clock@, se.clock@, self.clock@, other.clock@); }
+                if common.is_empty() {
+                    // both maps had seen each others entry and removed them
+                    self.entries.remove(&key).unwrap();
+                } else {
+                    // we should not drop, as there is information still tracked in
+                    // the common clock.
+                    our_entry.val.merge(entry.val);
+                    //@ let ghost m1 = our_entry.val;
+
+                    let mut information_that_was_deleted = entry.clock.clone();
+                    information_that_was_deleted.merge(our_entry.clock.clone());
+                    //@ let ghost jn = information_that_was_deleted@;
+                    information_that_was_deleted.reset_remove(&common);
+                    our_entry.val.reset_remove(&information_that_was_deleted);
+                    //@ proof { assert(V::cv_post(&se.val, &oe.val, &m1)); assert(is_join(jn, oe.clock@, se.clock@)); assert(information_that_was_deleted@ == vsub(jn, common@)); assert(V::rr_post(&m1, &information_that_was_deleted, &our_entry.val)); }
+                    our_entry.clock = common;
+                }
+            } else {
+                // we don't have this entry, is it because we:
+                //  1. have seen it and dropped it
+                //  2. have not seen it
+                //@ proof { lemma_pcmp_code(self.clock@, entry.clock@); }
+                if self.clock >= entry.clock {
+                    // We've seen this entry and dropped it, we won't add it back
+                } else {
+                    // We have not seen this version of this entry, so we add it.
+                    // but first, we have to remove the information on this entry
+                    // that we have seen and deleted
+                    //@ let ghost eo = entry.clock@;
+                    entry.clock.reset_remove(&self.clock);
+                    //@ proof { c10_vsub_nz(eo, self.clock@); let a = choose|a: A| !(cnt(eo, a) <= cnt(self.clock@, a)); assert(vsub(eo, self.clock@).contains_key(a)); }
+
+                    let mut information_we_deleted = self.clock.clone();
+                    information_we_deleted.reset_remove(&entry.clock);
+                    entry.val.reset_remove(&information_we_deleted);
+                    //@ proof { assert(information_we_deleted@ == vsub(self.clock@, entry.clock@)); assert(V::rr_post(&oe.val, &information_we_deleted, &entry.val)); }
+                    self.entries.insert(key, entry);
+                }
+            }
+            //@ proof { lemma_mmerge_pass2_step(*old(self), other, s1, pre, *self, ovs, idx); }
+        }
+        //@ let ghost s2 = *self;
+        //@ proof { lemma_mmerge_pass2_done(*old(self), other, s1, s2, ovs); }
+
+        // merge deferred removals
+        //@ let dv = shim_hashmap_into_vec(other.deferred);
+        //@ let ghost dvs = dv@;
+        for (rm_clock, keys) in /*@ it: dv @*/ /*@<*/ other.deferred /*@>*/
+        //@ invariant
+        //@     mbase_ok::<K, V, A>(), cval_ok::<V, A>(), clone_ok::<A>(), old(self).wf(), other.wf(), self.wf(), it.seq() == dvs, self.cl() == old(self).cl(),
+        //@     forall|i: int| 0 <= i < dvs.len() ==> other.defs().contains_key((#[trigger] dvs[i]).0) && other.defs()[dvs[i].0] == dvs[i].1,
+        //@     forall|i: int, j: int| 0 <= i < j < dvs.len() ==> (#[trigger] dvs[i]).0 != (#[trigger] dvs[j]).0,
+        //@     forall|k: VClock<A>| other.defs().contains_key(k) ==> exists|i: int| 0 <= i < dvs.len() && (#[trigger] dvs[i]).0 == k,
+        //@     forall|m: K, a: A| #![trigger cnt(self.ec(m), a)] cnt(self.ec(m), a) == (if kcovered_upto(dvs, it.index@, m, a, cnt(s2.ec(m), a)) { 0 } else { cnt(s2.ec(m), a) }),
+        //@     forall|m: K| #[trigger] self.has(m) == (s2.has(m) && self.ec(m) != SMap::<A, u64>::empty()),
+        //@     forall|m: K| !knamed_upto(dvs, it.index@, m) && #[trigger] self.has(m) ==> self.val(m) == s2.val(m),
+        //@     forall|k: VClock<A>| #![trigger self.defs().contains_key(k)] self.defs().contains_key(k) <==> (old(self).defs().contains_key(k) || exists|j: int| 0 <= j < it.index@ && (#[trigger] dvs[j]).0 == k && !vle(k@, self.cl())),
+        //@     forall|k: VClock<A>| #![trigger self.dm(k)] self.dm(k) == old(self).dm(k).union(if exists|j: int| 0 <= j < it.index@ && (#[trigger] dvs[j]).0 == k && !vle(k@, self.cl()) { other.dm(k) } else { SSet::<K>::empty() }),
+        {
+            //@ let ghost pre = *self;
+            //@ proof { assert(rm_clock == dvs[it.index@].0); assert(other.defs().contains_key(rm_clock)); other.lemma_wf(); assert(nz(rm_clock@)); pre.lemma_wf(); }
+            self.apply_keyset_rm(keys, rm_clock);
+            //@ proof { lemma_merge_pass3_step(*old(self), other, s2, pre, *self, dvs, it.index@); lemma_deferred_vals_step(s2, pre, *self, dvs, it.index@); }
+        }
+        //@ let ghost s3 = *self;
+
+        //@ proof { assert(self.clock.cv_inv() && other.clock.cv_inv()); }
+        self.clock.merge(other.clock);
+        //@ let ghost s4 = *self;
+        //@ proof { lemma_s4_wf(s3, s4); }
+
+        self.apply_deferred();
+        //@ proof { lemma_merge_finish(*old(self), other, s2, s3, s4, *self, dvs); lemma_mmerge_vals_finish(*old(self), other, s2, s3, s4, *self, dvs); }
+    }
+//@end
+}
+
 impl<K: Ord, V: Val<A>, A: Ord + Hash + Clone> Map<K, V, A> {
 //@extract fn src/map.rs "Map" new
     pub fn new() -> /*@ (r: @*/ Self /*@ ) @*/
@@ -791,6 +1011,515 @@ proof fn lemma_rrm_done<K: Ord, V: Val<A>, A: Ord + Hash>(old_: Map<K, V, A>, ne
     let c = clock@;
     assert(new_.cl() == vsub(old_.cl(), c));
     assert(rr_post_map(old_, clock, new_));
+}
+
+proof fn lemma_merge_pass3_step<K: Ord, V: Val<A>, A: Ord + Hash>(old_: Map<K, V, A>, other: Map<K, V, A>, s2: Map<K, V, A>, pre: Map<K, V, A>, post: Map<K, V, A>, dvs: Seq<(VClock<A>, BTreeSet<K>)>, idx: int)
+    requires
+        0 <= idx < dvs.len(), pre.wf(), post.wf(), post.cl() == pre.cl(), pre.cl() == old_.cl(),
+        forall|i: int| 0 <= i < dvs.len() ==> other.defs().contains_key((#[trigger] dvs[i]).0) && other.defs()[dvs[i].0] == dvs[i].1,
+        forall|i: int, j: int| 0 <= i < j < dvs.len() ==> (#[trigger] dvs[i]).0 != (#[trigger] dvs[j]).0,
+        forall|m: K, a: A| #![trigger cnt(pre.ec(m), a)] cnt(pre.ec(m), a) == (if kcovered_upto(dvs, idx, m, a, cnt(s2.ec(m), a)) { 0 } else { cnt(s2.ec(m), a) }),
+        forall|k: VClock<A>| #![trigger pre.defs().contains_key(k)] pre.defs().contains_key(k) <==> (old_.defs().contains_key(k) || exists|j: int| 0 <= j < idx && (#[trigger] dvs[j]).0 == k && !vle(k@, pre.cl())),
+        forall|k: VClock<A>| #![trigger pre.dm(k)] pre.dm(k) == old_.dm(k).union(if exists|j: int| 0 <= j < idx && (#[trigger] dvs[j]).0 == k && !vle(k@, pre.cl()) { other.dm(k) } else { SSet::<K>::empty() }),
+        // apply_rm(dvs[idx].1, dvs[idx].0)
+        forall|m: K| #[trigger] post.ec(m) == (if dvs[idx].1@.contains(m) { vsub(pre.ec(m), dvs[idx].0@) } else { pre.ec(m) }),
+        post.defs() == (if vle(dvs[idx].0@, pre.cl()) { pre.defs() } else { pre.defs().insert(dvs[idx].0, post.defs()[dvs[idx].0]) }),
+        !vle(dvs[idx].0@, pre.cl()) ==> post.defs().contains_key(dvs[idx].0) && post.defs()[dvs[idx].0]@ == pre.dm(dvs[idx].0).union(dvs[idx].1@),
+    ensures
+        forall|m: K, a: A| #![trigger cnt(post.ec(m), a)] cnt(post.ec(m), a) == (if kcovered_upto(dvs, idx + 1, m, a, cnt(s2.ec(m), a)) { 0 } else { cnt(s2.ec(m), a) }),
+        forall|k: VClock<A>| #![trigger post.defs().contains_key(k)] post.defs().contains_key(k) <==> (old_.defs().contains_key(k) || exists|j: int| 0 <= j < idx + 1 && (#[trigger] dvs[j]).0 == k && !vle(k@, post.cl())),
+        forall|k: VClock<A>| #![trigger post.dm(k)] post.dm(k) == old_.dm(k).union(if exists|j: int| 0 <= j < idx + 1 && (#[trigger] dvs[j]).0 == k && !vle(k@, post.cl()) { other.dm(k) } else { SSet::<K>::empty() }),
+{
+    let kc = dvs[idx].0;
+    let ks = dvs[idx].1@;
+    assert(other.defs().contains_key(kc) && other.defs()[kc] == dvs[idx].1);
+    assert(other.dm(kc) == ks);
+    assert forall|m: K, a: A| #![trigger cnt(post.ec(m), a)] cnt(post.ec(m), a) == (if kcovered_upto(dvs, idx + 1, m, a, cnt(s2.ec(m), a)) { 0 } else { cnt(s2.ec(m), a) }) by {
+        let n = cnt(s2.ec(m), a);
+        assert(cnt(pre.ec(m), a) == (if kcovered_upto(dvs, idx, m, a, n) { 0 } else { n }));
+        assert(post.ec(m) == (if ks.contains(m) { vsub(pre.ec(m), kc@) } else { pre.ec(m) }));
+        lemma_cnt_vsub(pre.ec(m), kc@, a);
+        if kcovered_upto(dvs, idx, m, a, n) {
+            let j = choose|j: int| 0 <= j < idx && (#[trigger] dvs[j]).1@.contains(m) && cnt(dvs[j].0@, a) >= n;
+            assert(0 <= j < idx + 1 && dvs[j].1@.contains(m) && cnt(dvs[j].0@, a) >= n);
+        }
+        if ks.contains(m) && cnt(kc@, a) >= n {
+            assert(0 <= idx < idx + 1 && dvs[idx].1@.contains(m) && cnt(dvs[idx].0@, a) >= n);
+        }
+        if kcovered_upto(dvs, idx + 1, m, a, n) && !kcovered_upto(dvs, idx, m, a, n) {
+            let j = choose|j: int| 0 <= j < idx + 1 && (#[trigger] dvs[j]).1@.contains(m) && cnt(dvs[j].0@, a) >= n;
+            assert(j == idx);
+        }
+    }
+    // no earlier step handled the same key
+    assert(!(exists|j: int| 0 <= j < idx && (#[trigger] dvs[j]).0 == kc && !vle(kc@, pre.cl()))) by {
+        if exists|j: int| 0 <= j < idx && (#[trigger] dvs[j]).0 == kc && !vle(kc@, pre.cl()) {
+            let j = choose|j: int| 0 <= j < idx && (#[trigger] dvs[j]).0 == kc && !vle(kc@, pre.cl());
+            assert(dvs[j].0 != dvs[idx].0);
+        }
+    }
+    assert forall|k: VClock<A>| #![trigger post.defs().contains_key(k)] post.defs().contains_key(k) <==> (old_.defs().contains_key(k) || exists|j: int| 0 <= j < idx + 1 && (#[trigger] dvs[j]).0 == k && !vle(k@, post.cl())) by {
+        if post.defs().contains_key(k) {
+            if k == kc && !vle(kc@, pre.cl()) {
+                assert(0 <= idx < idx + 1 && dvs[idx].0 == k && !vle(k@, post.cl()));
+            } else {
+                assert(pre.defs().contains_key(k));
+                if !old_.defs().contains_key(k) {
+                    let j = choose|j: int| 0 <= j < idx && (#[trigger] dvs[j]).0 == k && !vle(k@, pre.cl());
+                    assert(0 <= j < idx + 1 && dvs[j].0 == k && !vle(k@, post.cl()));
+                }
+            }
+        }
+        if old_.defs().contains_key(k) { assert(pre.defs().contains_key(k)); }
+        if exists|j: int| 0 <= j < idx + 1 && (#[trigger] dvs[j]).0 == k && !vle(k@, post.cl()) {
+            let j = choose|j: int| 0 <= j < idx + 1 && (#[trigger] dvs[j]).0 == k && !vle(k@, post.cl());
+            if j < idx { assert(pre.defs().contains_key(k)); } else { assert(k == kc); }
+        }
+    }
+    assert forall|k: VClock<A>| #![trigger post.dm(k)] post.dm(k) == old_.dm(k).union(if exists|j: int| 0 <= j < idx + 1 && (#[trigger] dvs[j]).0 == k && !vle(k@, post.cl()) { other.dm(k) } else { SSet::<K>::empty() }) by {
+        let pd = pre.dm(k);
+        assert(pd == old_.dm(k).union(if exists|j: int| 0 <= j < idx && (#[trigger] dvs[j]).0 == k && !vle(k@, pre.cl()) { other.dm(k) } else { SSet::<K>::empty() }));
+        if k == kc {
+            if !vle(kc@, pre.cl()) {
+                assert(0 <= idx < idx + 1 && dvs[idx].0 == k && !vle(k@, post.cl()));
+                assert(post.dm(k) == pre.dm(k).union(ks));
+                assert(pre.dm(k) =~= old_.dm(k).union(SSet::<K>::empty()));
+                assert(old_.dm(k).union(SSet::<K>::empty()).union(ks) =~= old_.dm(k).union(ks));
+            } else {
+                assert(post.dm(k) == pre.dm(k));
+                assert(!(exists|j: int| 0 <= j < idx + 1 && (#[trigger] dvs[j]).0 == k && !vle(k@, post.cl()))) by {
+                    if exists|j: int| 0 <= j < idx + 1 && (#[trigger] dvs[j]).0 == k && !vle(k@, post.cl()) {
+                        let j = choose|j: int| 0 <= j < idx + 1 && (#[trigger] dvs[j]).0 == k && !vle(k@, post.cl());
+                    }
+                }
+            }
+        } else {
+            assert(post.defs().contains_key(k) == pre.defs().contains_key(k));
+            if post.defs().contains_key(k) { assert(post.defs()[k] == pre.defs()[k]); }
+            assert(post.dm(k) == pre.dm(k));
+            if exists|j: int| 0 <= j < idx + 1 && (#[trigger] dvs[j]).0 == k && !vle(k@, post.cl()) {
+                let j = choose|j: int| 0 <= j < idx + 1 && (#[trigger] dvs[j]).0 == k && !vle(k@, post.cl());
+                assert(j < idx);
+                assert(0 <= j < idx && dvs[j].0 == k && !vle(k@, pre.cl()));
+            }
+            if exists|j: int| 0 <= j < idx && (#[trigger] dvs[j]).0 == k && !vle(k@, pre.cl()) {
+                let j = choose|j: int| 0 <= j < idx && (#[trigger] dvs[j]).0 == k && !vle(k@, pre.cl());
+                assert(0 <= j < idx + 1 && dvs[j].0 == k && !vle(k@, post.cl()));
+            }
+        }
+    }
+}
+
+proof fn lemma_merge_finish<K: Ord, V: Val<A>, A: Ord + Hash>(old_: Map<K, V, A>, other: Map<K, V, A>, s2: Map<K, V, A>, s3: Map<K, V, A>, s4: Map<K, V, A>, fin: Map<K, V, A>, dvs: Seq<(VClock<A>, BTreeSet<K>)>)
+    requires
+        s3.cl() == old_.cl(), s4.entries@ == s3.entries@, s4.defs() == s3.defs(), is_join(s4.cl(), old_.cl(), other.cl()), fin.cl() == s4.cl(),
+        forall|i: int| 0 <= i < dvs.len() ==> other.defs().contains_key((#[trigger] dvs[i]).0) && other.defs()[dvs[i].0] == dvs[i].1,
+        forall|k: VClock<A>| other.defs().contains_key(k) ==> exists|i: int| 0 <= i < dvs.len() && (#[trigger] dvs[i]).0 == k,
+        forall|m: K, a: A| #![trigger cnt(s2.ec(m), a)] cnt(s2.ec(m), a) == mrg(cnt(old_.ec(m), a), cnt(other.ec(m), a), cnt(old_.cl(), a), cnt(other.cl(), a)),
+        forall|m: K, a: A| #![trigger cnt(s3.ec(m), a)] cnt(s3.ec(m), a) == (if kcovered_upto(dvs, dvs.len() as int, m, a, cnt(s2.ec(m), a)) { 0 } else { cnt(s2.ec(m), a) }),
+        forall|k: VClock<A>| #![trigger s3.defs().contains_key(k)] s3.defs().contains_key(k) <==> (old_.defs().contains_key(k) || exists|j: int| 0 <= j < dvs.len() && (#[trigger] dvs[j]).0 == k && !vle(k@, s3.cl())),
+        forall|k: VClock<A>| #![trigger s3.dm(k)] s3.dm(k) == old_.dm(k).union(if exists|j: int| 0 <= j < dvs.len() && (#[trigger] dvs[j]).0 == k && !vle(k@, s3.cl()) { other.dm(k) } else { SSet::<K>::empty() }),
+        // apply_deferred on s4
+        forall|m: K, a: A| #![trigger cnt(fin.ec(m), a)] cnt(fin.ec(m), a) == (if kcovered_by(s4.defs(), m, a, cnt(s4.ec(m), a)) { 0 } else { cnt(s4.ec(m), a) }),
+        forall|k: VClock<A>| #![trigger fin.defs().contains_key(k)] fin.defs().contains_key(k) <==> (s4.defs().contains_key(k) && !vle(k@, s4.cl())),
+        forall|k: VClock<A>| #![trigger fin.defs()[k]] fin.defs().contains_key(k) ==> fin.defs()[k]@ == s4.defs()[k]@,
+    ensures
+        forall|m: K, a: A| #![trigger cnt(fin.ec(m), a)] cnt(fin.ec(m), a) == ({
+            let x = mrg(cnt(old_.ec(m), a), cnt(other.ec(m), a), cnt(old_.cl(), a), cnt(other.cl(), a));
+            if kcovered_by(old_.defs(), m, a, x) || kcovered_by(other.defs(), m, a, x) { 0 } else { x } }),
+        forall|k: VClock<A>| #![trigger fin.defs().contains_key(k)] fin.defs().contains_key(k) <==> ((old_.defs().contains_key(k) || other.defs().contains_key(k)) && !vle(k@, fin.cl())),
+        forall|k: VClock<A>| #![trigger fin.defs()[k]] fin.defs().contains_key(k) ==> fin.defs()[k]@ == old_.dm(k).union(other.dm(k)),
+{
+    let jc = s4.cl();
+    // vle(k, old.cl) ==> vle(k, join)
+    assert forall|k: VClock<A>| vle(k@, old_.cl()) implies vle(k@, jc) by {
+        assert forall|a: A| cnt(k@, a) <= cnt(jc, a) by { assert(cnt(jc, a) == max64(cnt(old_.cl(), a), cnt(other.cl(), a))); assert(cnt(k@, a) <= cnt(old_.cl(), a)); }
+    }
+    assert forall|m: K, a: A| #![trigger cnt(fin.ec(m), a)] cnt(fin.ec(m), a) == ({
+            let x = mrg(cnt(old_.ec(m), a), cnt(other.ec(m), a), cnt(old_.cl(), a), cnt(other.cl(), a));
+            if kcovered_by(old_.defs(), m, a, x) || kcovered_by(other.defs(), m, a, x) { 0 } else { x } }) by {
+        let x = mrg(cnt(old_.ec(m), a), cnt(other.ec(m), a), cnt(old_.cl(), a), cnt(other.cl(), a));
+        assert(cnt(s2.ec(m), a) == x);
+        assert(s4.ec(m) == s3.ec(m));
+        let y = cnt(s3.ec(m), a);
+        assert(y == (if kcovered_upto(dvs, dvs.len() as int, m, a, x) { 0 } else { x }));
+        if kcovered_by(other.defs(), m, a, x) {
+            let k = choose|k: VClock<A>| #[trigger] other.defs().contains_key(k) && other.defs()[k]@.contains(m) && cnt(k@, a) >= x;
+            let i = choose|i: int| 0 <= i < dvs.len() && (#[trigger] dvs[i]).0 == k;
+            assert(dvs[i].1@.contains(m) && cnt(dvs[i].0@, a) >= x);
+            assert(y == 0);
+        } else {
+            if kcovered_upto(dvs, dvs.len() as int, m, a, x) {
+                let j = choose|j: int| 0 <= j < dvs.len() && (#[trigger] dvs[j]).1@.contains(m) && cnt(dvs[j].0@, a) >= x;
+                assert(other.defs().contains_key(dvs[j].0) && other.defs()[dvs[j].0]@.contains(m));
+                assert(false);
+            }
+            assert(y == x);
+            if kcovered_by(old_.defs(), m, a, x) {
+                let k = choose|k: VClock<A>| #[trigger] old_.defs().contains_key(k) && old_.defs()[k]@.contains(m) && cnt(k@, a) >= x;
+                assert(s3.defs().contains_key(k));
+                assert(s3.dm(k).contains(m)) by { assert(old_.dm(k).contains(m)); }
+                assert(s4.defs().contains_key(k) && s4.defs()[k]@.contains(m) && cnt(k@, a) >= y);
+            } else {
+                if kcovered_by(s4.defs(), m, a, y) {
+                    let k = choose|k: VClock<A>| #[trigger] s4.defs().contains_key(k) && s4.defs()[k]@.contains(m) && cnt(k@, a) >= y;
+                    assert(s3.dm(k).contains(m));
+                    if old_.dm(k).contains(m) {
+                        assert(old_.defs().contains_key(k) && old_.defs()[k]@.contains(m));
+                    } else {
+                        assert(other.dm(k).contains(m));
+                        assert(other.defs().contains_key(k) && other.defs()[k]@.contains(m));
+                    }
+                    assert(false);
+                }
+            }
+        }
+    }
+    assert forall|k: VClock<A>| #![trigger fin.defs().contains_key(k)] fin.defs().contains_key(k) <==> ((old_.defs().contains_key(k) || other.defs().contains_key(k)) && !vle(k@, fin.cl())) by {
+        if fin.defs().contains_key(k) {
+            assert(s3.defs().contains_key(k));
+            if !old_.defs().contains_key(k) {
+                let j = choose|j: int| 0 <= j < dvs.len() && (#[trigger] dvs[j]).0 == k && !vle(k@, s3.cl());
+                assert(other.defs().contains_key(dvs[j].0));
+            }
+        }
+        if (old_.defs().contains_key(k) || other.defs().contains_key(k)) && !vle(k@, fin.cl()) {
+            if !old_.defs().contains_key(k) {
+                let i = choose|i: int| 0 <= i < dvs.len() && (#[trigger] dvs[i]).0 == k;
+                assert(!vle(k@, old_.cl()));
+                assert(0 <= i < dvs.len() && dvs[i].0 == k && !vle(k@, s3.cl()));
+            }
+            assert(s3.defs().contains_key(k));
+        }
+    }
+    assert forall|k: VClock<A>| #![trigger fin.defs()[k]] fin.defs().contains_key(k) implies fin.defs()[k]@ == old_.dm(k).union(other.dm(k)) by {
+        assert(s4.defs().contains_key(k) && !vle(k@, jc));
+        assert(!vle(k@, old_.cl()));
+        assert(fin.defs()[k]@ == s3.dm(k));
+        if other.defs().contains_key(k) {
+            let i = choose|i: int| 0 <= i < dvs.len() && (#[trigger] dvs[i]).0 == k;
+            assert(0 <= i < dvs.len() && dvs[i].0 == k && !vle(k@, s3.cl()));
+        } else {
+            assert(other.dm(k) == SSet::<K>::empty());
+            assert(old_.dm(k).union(SSet::<K>::empty()) =~= old_.dm(k));
+            if exists|j: int| 0 <= j < dvs.len() && (#[trigger] dvs[j]).0 == k && !vle(k@, s3.cl()) {
+                let j = choose|j: int| 0 <= j < dvs.len() && (#[trigger] dvs[j]).0 == k && !vle(k@, s3.cl());
+                assert(other.defs().contains_key(dvs[j].0));
+            }
+        }
+    }
+}
+
+proof fn lemma_mmerge_pass1<K: Ord, V: Val<A>, A: Ord + Hash>(old_: Map<K, V, A>, other: Map<K, V, A>, s1: Map<K, V, A>)
+    requires
+        old_.wf(), other.wf(), s1.clock@ == old_.clock@, s1.deferred@ == old_.deferred@,
+        forall|k: K| #[trigger] s1.entries@.contains_key(k) ==> old_.entries@.contains_key(k) && mkeep1((k, old_.entries@[k]), Some((k, s1.entries@[k])), other.entries@.contains_key(k), other.clock@),
+        forall|k: K| #[trigger] old_.entries@.contains_key(k) && !s1.entries@.contains_key(k) ==> mkeep1((k, old_.entries@[k]), None, other.entries@.contains_key(k), other.clock@),
+    ensures
+        s1.wf(), s1.cl() == old_.cl(), s1.defs() == old_.defs(),
+        forall|m: K, a: A| #![trigger cnt(s1.ec(m), a)] cnt(s1.ec(m), a) == (if other.has(m) { cnt(old_.ec(m), a) } else { mrg(cnt(old_.ec(m), a), 0, cnt(old_.cl(), a), cnt(other.cl(), a)) }),
+        forall|m: K| other.has(m) ==> #[trigger] s1.ec(m) == old_.ec(m) && s1.has(m) == old_.has(m) && (s1.has(m) ==> s1.val(m) == old_.val(m)),
+        forall|m: K| #[trigger] s1.has(m) ==> old_.has(m),
+        forall|m: K| !other.has(m) && #[trigger] s1.has(m) ==> exists|c: VClock<A>| c@ == vsub(other.cl(), s1.ec(m)) && #[trigger] V::rr_post(&old_.val(m), &c, &s1.val(m)),
+{
+    let oc = other.clock@;
+    assert forall|m: K| s1.entries@.contains_key(m) implies nz(#[trigger] s1.entries@[m].clock@) && s1.entries@[m].clock@ != SMap::<A, u64>::empty() && s1.entries@[m].val.cm_inv() by {
+        assert(old_.entries@.contains_key(m));
+        let e = old_.entries@[m].clock@;
+        assert(nz(e) && e != SMap::<A, u64>::empty());
+        if !other.entries@.contains_key(m) {
+            assert(!vle(e, oc));
+            c10_vsub_nz(e, oc);
+            let a = choose|a: A| !(cnt(e, a) <= cnt(oc, a));
+            assert(vsub(e, oc).contains_key(a));
+        }
+    }
+    assert forall|m: K, a: A| #![trigger cnt(s1.ec(m), a)] cnt(s1.ec(m), a) == (if other.has(m) { cnt(old_.ec(m), a) } else { mrg(cnt(old_.ec(m), a), 0, cnt(old_.cl(), a), cnt(oc, a)) }) by {
+        let e = old_.ec(m);
+        if old_.entries@.contains_key(m) {
+            assert(nz(old_.entries@[m].clock@));
+            if s1.entries@.contains_key(m) {
+                if !other.entries@.contains_key(m) { lemma_cnt_vsub(e, oc, a); }
+            } else {
+                assert(mkeep1((m, old_.entries@[m]), None::<(K, Entry<V, A>)>, other.entries@.contains_key(m), oc));
+                assert(!other.entries@.contains_key(m) && vle(e, oc));
+                assert(cnt(e, a) <= cnt(oc, a));
+            }
+        } else {
+            assert(!s1.entries@.contains_key(m));
+        }
+    }
+    assert forall|m: K| other.has(m) implies #[trigger] s1.ec(m) == old_.ec(m) && s1.has(m) == old_.has(m) && (s1.has(m) ==> s1.val(m) == old_.val(m)) by {
+        if old_.entries@.contains_key(m) {
+            if !s1.entries@.contains_key(m) { assert(mkeep1((m, old_.entries@[m]), None::<(K, Entry<V, A>)>, true, oc)); }
+        }
+    }
+    assert forall|m: K| !other.has(m) && #[trigger] s1.has(m) implies exists|c: VClock<A>| c@ == vsub(other.cl(), s1.ec(m)) && #[trigger] V::rr_post(&old_.val(m), &c, &s1.val(m)) by {
+        assert(mkeep1((m, old_.entries@[m]), Some((m, s1.entries@[m])), false, oc));
+        let c = choose|c: VClock<A>| c@ == vsub(oc, s1.entries@[m].clock@) && #[trigger] V::rr_post(&old_.entries@[m].val, &c, &s1.entries@[m].val);
+        assert(c@ == vsub(other.cl(), s1.ec(m)) && V::rr_post(&old_.val(m), &c, &s1.val(m)));
+    }
+}
+
+proof fn lemma_mmerge_pass2_step<K: Ord, V: Val<A> + CvRDT, A: Ord + Hash>(old_: Map<K, V, A>, other: Map<K, V, A>, s1: Map<K, V, A>, pre: Map<K, V, A>, post: Map<K, V, A>, ovs: Seq<(K, Entry<V, A>)>, idx: int)
+    requires
+        0 <= idx < ovs.len(), pre.wf(), old_.wf(), other.wf(), s1.wf(),
+        forall|i: int| 0 <= i < ovs.len() ==> other.entries@.contains_key((#[trigger] ovs[i]).0) && other.entries@[ovs[i].0] == ovs[i].1,
+        forall|i: int, j: int| 0 <= i < j < ovs.len() ==> (#[trigger] ovs[i]).0 != (#[trigger] ovs[j]).0,
+        forall|m: K| other.has(m) ==> #[trigger] s1.ec(m) == old_.ec(m) && s1.has(m) == old_.has(m) && (s1.has(m) ==> s1.val(m) == old_.val(m)),
+        forall|m: K, a: A| #![trigger cnt(pre.ec(m), a)] cnt(pre.ec(m), a) == (
+            if exists|j: int| 0 <= j < idx && (#[trigger] ovs[j]).0 == m { mrg(cnt(old_.ec(m), a), cnt(other.ec(m), a), cnt(old_.cl(), a), cnt(other.cl(), a)) }
+            else { cnt(s1.ec(m), a) }),
+        forall|m: K| #[trigger] pre.has(m) == (pre.ec(m) != SMap::<A, u64>::empty()),
+        forall|m: K| !(exists|j: int| 0 <= j < idx && (#[trigger] ovs[j]).0 == m) && #[trigger] pre.has(m) ==> s1.has(m) && pre.val(m) == s1.val(m),
+        forall|m: K| (exists|j: int| 0 <= j < idx && (#[trigger] ovs[j]).0 == m) && #[trigger] pre.has(m) ==> merge_val_post(old_, other, pre, m),
+        post.clock@ == pre.clock@, post.deferred@ == pre.deferred@, pre.clock@ == old_.clock@,
+        forall|m: K| #![trigger post.entries@.contains_key(m)] m != ovs[idx].0 ==> (post.entries@.contains_key(m) == pre.entries@.contains_key(m) && (post.entries@.contains_key(m) ==> post.entries@[m] == pre.entries@[m])),
+        forall|a: A| #[trigger] cnt(post.ec(ovs[idx].0), a) == mrg(cnt(pre.ec(ovs[idx].0), a), cnt(ovs[idx].1.clock@, a), cnt(old_.cl(), a), cnt(other.cl(), a)),
+        post.entries@.contains_key(ovs[idx].0) ==> nz(post.entries@[ovs[idx].0].clock@) && post.entries@[ovs[idx].0].clock@ != SMap::<A, u64>::empty() && post.entries@[ovs[idx].0].val.cm_inv(),
+        // value of the visited key, if it survives
+        post.entries@.contains_key(ovs[idx].0) ==> (
+            if pre.entries@.contains_key(ovs[idx].0) {
+                exists|m1: V, c: VClock<A>, j: SMap<A, u64>| #[trigger] V::cv_post(&pre.entries@[ovs[idx].0].val, &ovs[idx].1.val, &m1) && #[trigger] is_join(j, ovs[idx].1.clock@, pre.entries@[ovs[idx].0].clock@)
+                    && c@ == vsub(j, post.entries@[ovs[idx].0].clock@) && #[trigger] V::rr_post(&m1, &c, &post.entries@[ovs[idx].0].val)
+            } else {
+                exists|c: VClock<A>| c@ == vsub(old_.cl(), post.entries@[ovs[idx].0].clock@) && #[trigger] V::rr_post(&ovs[idx].1.val, &c, &post.entries@[ovs[idx].0].val)
+            }),
+    ensures
+        post.wf(),
+        forall|m: K, a: A| #![trigger cnt(post.ec(m), a)] cnt(post.ec(m), a) == (
+            if exists|j: int| 0 <= j < idx + 1 && (#[trigger] ovs[j]).0 == m { mrg(cnt(old_.ec(m), a), cnt(other.ec(m), a), cnt(old_.cl(), a), cnt(other.cl(), a)) }
+            else { cnt(s1.ec(m), a) }),
+        forall|m: K| #[trigger] post.has(m) == (post.ec(m) != SMap::<A, u64>::empty()),
+        forall|m: K| !(exists|j: int| 0 <= j < idx + 1 && (#[trigger] ovs[j]).0 == m) && #[trigger] post.has(m) ==> s1.has(m) && post.val(m) == s1.val(m),
+        forall|m: K| (exists|j: int| 0 <= j < idx + 1 && (#[trigger] ovs[j]).0 == m) && #[trigger] post.has(m) ==> merge_val_post(old_, other, post, m),
+{
+    let me = ovs[idx].0;
+    assert(other.entries@.contains_key(me) && other.entries@[me] == ovs[idx].1);
+    // not visited before: keys are distinct
+    assert(!(exists|j: int| 0 <= j < idx && (#[trigger] ovs[j]).0 == me)) by {
+        if exists|j: int| 0 <= j < idx && (#[trigger] ovs[j]).0 == me {
+            let j = choose|j: int| 0 <= j < idx && (#[trigger] ovs[j]).0 == me;
+            assert(ovs[j].0 != ovs[idx].0);
+        }
+    }
+    assert forall|m: K| m != me implies #[trigger] post.ec(m) == pre.ec(m) && post.has(m) == pre.has(m) && (post.has(m) ==> post.val(m) == pre.val(m)) by {
+        assert(post.entries@.contains_key(m) == pre.entries@.contains_key(m));
+    }
+    assert forall|m: K, a: A| #![trigger cnt(post.ec(m), a)] cnt(post.ec(m), a) == (
+            if exists|j: int| 0 <= j < idx + 1 && (#[trigger] ovs[j]).0 == m { mrg(cnt(old_.ec(m), a), cnt(other.ec(m), a), cnt(old_.cl(), a), cnt(other.cl(), a)) }
+            else { cnt(s1.ec(m), a) }) by {
+        if m == me {
+            assert(0 <= idx < idx + 1 && ovs[idx].0 == m);
+            assert(cnt(pre.ec(m), a) == cnt(s1.ec(m), a));
+            assert(s1.ec(m) == old_.ec(m));
+            assert(other.ec(m) == ovs[idx].1.clock@);
+        } else {
+            assert(post.ec(m) == pre.ec(m));
+            if exists|j: int| 0 <= j < idx + 1 && (#[trigger] ovs[j]).0 == m {
+                let j = choose|j: int| 0 <= j < idx + 1 && (#[trigger] ovs[j]).0 == m;
+                assert(j < idx);
+            }
+        }
+    }
+    assert forall|m: K| post.entries@.contains_key(m) implies nz(#[trigger] post.entries@[m].clock@) && post.entries@[m].clock@ != SMap::<A, u64>::empty() && post.entries@[m].val.cm_inv() by {
+        if m != me { assert(pre.entries@.contains_key(m)); assert(post.entries@[m] == pre.entries@[m]); }
+    }
+    assert forall|m: K| #[trigger] post.has(m) == (post.ec(m) != SMap::<A, u64>::empty()) by {
+        if m != me { assert(post.has(m) == pre.has(m) && post.ec(m) == pre.ec(m)); }
+    }
+    assert forall|m: K| !(exists|j: int| 0 <= j < idx + 1 && (#[trigger] ovs[j]).0 == m) && #[trigger] post.has(m) implies s1.has(m) && post.val(m) == s1.val(m) by {
+        if m == me { assert(0 <= idx < idx + 1 && ovs[idx].0 == m); }
+        else {
+            if exists|j: int| 0 <= j < idx && (#[trigger] ovs[j]).0 == m { let j = choose|j: int| 0 <= j < idx && (#[trigger] ovs[j]).0 == m; assert(0 <= j < idx + 1 && ovs[j].0 == m); }
+        }
+    }
+    assert forall|m: K| (exists|j: int| 0 <= j < idx + 1 && (#[trigger] ovs[j]).0 == m) && #[trigger] post.has(m) implies merge_val_post(old_, other, post, m) by {
+        if m == me {
+            assert(other.has(m) && other.val(m) == ovs[idx].1.val && other.ec(m) == ovs[idx].1.clock@);
+            assert(pre.has(m) == s1.has(m)) by { if pre.has(m) { } else { assert(pre.ec(m) == SMap::<A, u64>::empty()); assert forall|a: A| cnt(s1.ec(m), a) == 0 by { assert(cnt(pre.ec(m), a) == cnt(s1.ec(m), a)); } if s1.has(m) { assert(s1.entries@.contains_key(m)); lemma_s1_nonempty(s1, m); } } }
+            assert(other.has(m));
+            assert(s1.ec(m) == old_.ec(m));
+            assert(s1.has(m) == old_.has(m));
+            if pre.entries@.contains_key(m) {
+                assert(pre.has(m));
+                assert(s1.has(m) && pre.val(m) == s1.val(m));
+                assert(pre.val(m) == s1.val(m) && s1.val(m) == old_.val(m));
+                assert(old_.has(m));
+                // pre.ec(m) == old.ec(m) as maps
+                assert(pre.ec(m) == old_.ec(m)) by {
+                    assert forall|a: A| cnt(pre.ec(m), a) == cnt(old_.ec(m), a) by { assert(cnt(pre.ec(m), a) == cnt(s1.ec(m), a)); }
+                    pre.lemma_wf(); old_.lemma_wf();
+                    lemma_cnt_ext(pre.ec(m), old_.ec(m));
+                }
+                let (m1, c, j) = choose|m1: V, c: VClock<A>, j: SMap<A, u64>| #[trigger] V::cv_post(&pre.entries@[me].val, &ovs[idx].1.val, &m1) && #[trigger] is_join(j, ovs[idx].1.clock@, pre.entries@[me].clock@)
+                    && c@ == vsub(j, post.entries@[me].clock@) && #[trigger] V::rr_post(&m1, &c, &post.entries@[me].val);
+                assert(V::cv_post(&old_.val(m), &other.val(m), &m1) && is_join(j, other.ec(m), old_.ec(m)) && c@ == vsub(j, post.ec(m)) && V::rr_post(&m1, &c, &post.val(m)));
+            } else {
+                assert(!pre.has(m));
+                assert(!old_.has(m));
+                let c = choose|c: VClock<A>| c@ == vsub(old_.cl(), post.entries@[me].clock@) && #[trigger] V::rr_post(&ovs[idx].1.val, &c, &post.entries@[me].val);
+                assert(c@ == vsub(old_.cl(), post.ec(m)) && V::rr_post(&other.val(m), &c, &post.val(m)));
+            }
+        } else {
+            let j = choose|j: int| 0 <= j < idx + 1 && (#[trigger] ovs[j]).0 == m;
+            assert(j < idx);
+            assert(merge_val_post(old_, other, pre, m));
+            assert(post.ec(m) == pre.ec(m) && post.val(m) == pre.val(m));
+        }
+    }
+}
+
+proof fn lemma_s1_nonempty<K: Ord, V: Val<A>, A: Ord + Hash>(s: Map<K, V, A>, m: K)
+    requires s.wf(), s.has(m), forall|a: A| cnt(s.ec(m), a) == 0,
+    ensures false,
+{
+    s.lemma_wf();
+    let e = s.ec(m);
+    assert(e != SMap::<A, u64>::empty());
+    assert(e =~= SMap::<A, u64>::empty()) by {
+        assert forall|a: A| !e.contains_key(a) by { if e.contains_key(a) { assert(e[a] > 0); assert(cnt(e, a) == 0); } }
+    }
+}
+
+proof fn lemma_mmerge_pass2_done<K: Ord, V: Val<A> + CvRDT, A: Ord + Hash>(old_: Map<K, V, A>, other: Map<K, V, A>, s1: Map<K, V, A>, s2: Map<K, V, A>, ovs: Seq<(K, Entry<V, A>)>)
+    requires
+        forall|k: K| other.entries@.contains_key(k) ==> exists|i: int| 0 <= i < ovs.len() && (#[trigger] ovs[i]).0 == k,
+        forall|i: int| 0 <= i < ovs.len() ==> other.entries@.contains_key((#[trigger] ovs[i]).0),
+        forall|m: K, a: A| #![trigger cnt(s1.ec(m), a)] cnt(s1.ec(m), a) == (if other.has(m) { cnt(old_.ec(m), a) } else { mrg(cnt(old_.ec(m), a), 0, cnt(old_.cl(), a), cnt(other.cl(), a)) }),
+        forall|m: K| #[trigger] s1.has(m) ==> old_.has(m),
+        forall|m: K| !other.has(m) && #[trigger] s1.has(m) ==> exists|c: VClock<A>| c@ == vsub(other.cl(), s1.ec(m)) && #[trigger] V::rr_post(&old_.val(m), &c, &s1.val(m)),
+        forall|m: K, a: A| #![trigger cnt(s2.ec(m), a)] cnt(s2.ec(m), a) == (
+            if exists|j: int| 0 <= j < ovs.len() && (#[trigger] ovs[j]).0 == m { mrg(cnt(old_.ec(m), a), cnt(other.ec(m), a), cnt(old_.cl(), a), cnt(other.cl(), a)) }
+            else { cnt(s1.ec(m), a) }),
+        forall|m: K| !(exists|j: int| 0 <= j < ovs.len() && (#[trigger] ovs[j]).0 == m) && #[trigger] s2.has(m) ==> s1.has(m) && s2.val(m) == s1.val(m),
+        forall|m: K| (exists|j: int| 0 <= j < ovs.len() && (#[trigger] ovs[j]).0 == m) && #[trigger] s2.has(m) ==> merge_val_post(old_, other, s2, m),
+        s1.wf(), s2.wf(), old_.wf(),
+    ensures
+        forall|m: K, a: A| #![trigger cnt(s2.ec(m), a)] cnt(s2.ec(m), a) == mrg(cnt(old_.ec(m), a), cnt(other.ec(m), a), cnt(old_.cl(), a), cnt(other.cl(), a)),
+        forall|m: K| #[trigger] s2.has(m) ==> merge_val_post(old_, other, s2, m) && (old_.has(m) || other.has(m)),
+{
+    other.lemma_wf();
+    assert forall|m: K, a: A| #![trigger cnt(s2.ec(m), a)] cnt(s2.ec(m), a) == mrg(cnt(old_.ec(m), a), cnt(other.ec(m), a), cnt(old_.cl(), a), cnt(other.cl(), a)) by {
+        if other.has(m) {
+            let i = choose|i: int| 0 <= i < ovs.len() && (#[trigger] ovs[i]).0 == m;
+        } else {
+            assert(!(exists|j: int| 0 <= j < ovs.len() && (#[trigger] ovs[j]).0 == m));
+            assert(cnt(s2.ec(m), a) == cnt(s1.ec(m), a));
+            assert(other.ec(m) == SMap::<A, u64>::empty());
+        }
+    }
+    assert forall|m: K| #[trigger] s2.has(m) implies merge_val_post(old_, other, s2, m) && (old_.has(m) || other.has(m)) by {
+        if exists|j: int| 0 <= j < ovs.len() && (#[trigger] ovs[j]).0 == m {
+            let j = choose|j: int| 0 <= j < ovs.len() && (#[trigger] ovs[j]).0 == m;
+            assert(other.has(m));
+        } else {
+            assert(!other.has(m));
+            assert(s1.has(m) && s2.val(m) == s1.val(m) && old_.has(m));
+            assert(s2.ec(m) == s1.ec(m)) by {
+                assert forall|a: A| cnt(s2.ec(m), a) == cnt(s1.ec(m), a) by {}
+                s1.lemma_wf(); s2.lemma_wf();
+                lemma_cnt_ext(s2.ec(m), s1.ec(m));
+            }
+        }
+    }
+}
+
+proof fn lemma_s4_wf<K: Ord, V: Val<A>, A: Ord + Hash>(s3: Map<K, V, A>, s4: Map<K, V, A>)
+    requires s3.wf(), s4.entries@ == s3.entries@, s4.deferred@ == s3.deferred@, nz(s4.clock@),
+    ensures s4.wf(),
+{}
+
+proof fn lemma_mmerge_vals_finish<K: Ord, V: Val<A> + CvRDT, A: Ord + Hash>(old_: Map<K, V, A>, other: Map<K, V, A>, s2: Map<K, V, A>, s3: Map<K, V, A>, s4: Map<K, V, A>, fin: Map<K, V, A>, dvs: Seq<(VClock<A>, BTreeSet<K>)>)
+    requires
+        s2.wf(), fin.wf(), s4.entries@ == s3.entries@, s4.deferred@ == s3.deferred@,
+        forall|i: int| 0 <= i < dvs.len() ==> other.defs().contains_key((#[trigger] dvs[i]).0) && other.defs()[dvs[i].0] == dvs[i].1,
+        forall|m: K| #[trigger] s2.has(m) ==> merge_val_post(old_, other, s2, m) && (old_.has(m) || other.has(m)),
+        forall|m: K, a: A| #![trigger cnt(s2.ec(m), a)] cnt(s2.ec(m), a) == mrg(cnt(old_.ec(m), a), cnt(other.ec(m), a), cnt(old_.cl(), a), cnt(other.cl(), a)),
+        forall|m: K| #[trigger] s3.has(m) == (s2.has(m) && s3.ec(m) != SMap::<A, u64>::empty()),
+        forall|m: K| !knamed_upto(dvs, dvs.len() as int, m) && #[trigger] s3.has(m) ==> s3.val(m) == s2.val(m),
+        forall|k: VClock<A>| #![trigger s3.dm(k)] s3.dm(k) == old_.dm(k).union(if exists|j: int| 0 <= j < dvs.len() && (#[trigger] dvs[j]).0 == k && !vle(k@, s3.cl()) { other.dm(k) } else { SSet::<K>::empty() }),
+        deferred_post(s4, fin),
+        // key layer of the final state (from lemma_merge_finish)
+        forall|m: K, a: A| #![trigger cnt(fin.ec(m), a)] cnt(fin.ec(m), a) == ({
+            let x = mrg(cnt(old_.ec(m), a), cnt(other.ec(m), a), cnt(old_.cl(), a), cnt(other.cl(), a));
+            if kcovered_by(old_.defs(), m, a, x) || kcovered_by(other.defs(), m, a, x) { 0 } else { x } }),
+    ensures
+        forall|k: K| #[trigger] fin.has(k) == ((old_.has(k) || other.has(k)) && fin.ec(k) != SMap::<A, u64>::empty()),
+        forall|k: K| !named_by(old_.defs(), k) && !named_by(other.defs(), k) && #[trigger] fin.has(k) ==> merge_val_post(old_, other, fin, k),
+{
+    fin.lemma_wf(); s2.lemma_wf();
+    assert forall|k: K| #[trigger] fin.has(k) == ((old_.has(k) || other.has(k)) && fin.ec(k) != SMap::<A, u64>::empty()) by {
+        assert(fin.has(k) == (s4.has(k) && fin.ec(k) != SMap::<A, u64>::empty()));
+        assert(s4.has(k) == s3.has(k));
+        if fin.ec(k) != SMap::<A, u64>::empty() && (old_.has(k) || other.has(k)) {
+            // some counter of fin.ec(k) is non-zero, hence the same counter of s2.ec(k), s3.ec(k) is
+            let a = choose|a: A| fin.ec(k).contains_key(a);
+            assert(fin.ec(k).dom().len() > 0 || fin.ec(k) =~= SMap::<A, u64>::empty());
+            lemma_nonempty_has_key(fin.ec(k));
+            let a = choose|a: A| fin.ec(k).contains_key(a);
+            assert(cnt(fin.ec(k), a) > 0) by { if fin.has(k) { } else { } lemma_ec_nz(fin, k); }
+            assert(cnt(s2.ec(k), a) > 0);
+            assert(s2.has(k)) by { if !s2.has(k) { assert(s2.ec(k) == SMap::<A, u64>::empty()); } }
+            assert(s4.ec(k) == s3.ec(k));
+            assert(cnt(fin.ec(k), a) == (if kcovered_by(s4.defs(), k, a, cnt(s4.ec(k), a)) { 0 } else { cnt(s4.ec(k), a) }));
+            assert(cnt(s3.ec(k), a) > 0);
+            assert(s3.ec(k) != SMap::<A, u64>::empty());
+        }
+        if fin.has(k) { assert(s3.has(k) && s2.has(k)); }
+    }
+    assert forall|k: K| !named_by(old_.defs(), k) && !named_by(other.defs(), k) && #[trigger] fin.has(k) implies merge_val_post(old_, other, fin, k) by {
+        assert(fin.has(k) == (s4.has(k) && fin.ec(k) != SMap::<A, u64>::empty()));
+        assert(s4.has(k) == s3.has(k));
+        assert(s4.has(k));
+        assert(s3.has(k) == (s2.has(k) && s3.ec(k) != SMap::<A, u64>::empty()));
+        assert(s2.has(k));
+        // not named by other's pending removes: untouched in pass 3
+        assert(!knamed_upto(dvs, dvs.len() as int, k)) by {
+            if knamed_upto(dvs, dvs.len() as int, k) {
+                let j = choose|j: int| 0 <= j < dvs.len() && (#[trigger] dvs[j]).1@.contains(k);
+                assert(other.defs().contains_key(dvs[j].0) && other.defs()[dvs[j].0]@.contains(k));
+            }
+        }
+        assert(s3.val(k) == s2.val(k));
+        assert(s4.val(k) == s3.val(k));
+        // not named by any pending remove of the merged table: untouched by apply_deferred
+        assert(!named_by(s4.defs(), k)) by {
+            if named_by(s4.defs(), k) {
+                let c = choose|c: VClock<A>| #[trigger] s4.defs().contains_key(c) && s4.defs()[c]@.contains(k);
+                assert(s3.dm(c).contains(k));
+                if old_.dm(c).contains(k) { assert(old_.defs().contains_key(c) && old_.defs()[c]@.contains(k)); }
+                else { assert(other.dm(c).contains(k)); assert(other.defs().contains_key(c) && other.defs()[c]@.contains(k)); }
+            }
+        }
+        assert(fin.val(k) == s4.val(k));
+        // and the entry clock is the one pass 2 computed
+        assert(fin.ec(k) == s2.ec(k)) by {
+            assert forall|a: A| cnt(fin.ec(k), a) == cnt(s2.ec(k), a) by {
+                let x = mrg(cnt(old_.ec(k), a), cnt(other.ec(k), a), cnt(old_.cl(), a), cnt(other.cl(), a));
+                assert(cnt(s2.ec(k), a) == x);
+                if kcovered_by(old_.defs(), k, a, x) { let c = choose|c: VClock<A>| #[trigger] old_.defs().contains_key(c) && old_.defs()[c]@.contains(k) && cnt(c@, a) >= x; assert(named_by(old_.defs(), k)); }
+                if kcovered_by(other.defs(), k, a, x) { let c = choose|c: VClock<A>| #[trigger] other.defs().contains_key(c) && other.defs()[c]@.contains(k) && cnt(c@, a) >= x; assert(named_by(other.defs(), k)); }
+            }
+            lemma_ec_nz(fin, k); lemma_ec_nz(s2, k);
+            lemma_cnt_ext(fin.ec(k), s2.ec(k));
+        }
+        assert(merge_val_post(old_, other, s2, k));
+    }
+}
+
+proof fn lemma_nonempty_has_key<A>(m: SMap<A, u64>)
+    requires m != SMap::<A, u64>::empty(),
+    ensures exists|a: A| m.contains_key(a),
+{
+    if !(exists|a: A| m.contains_key(a)) { assert(m =~= SMap::<A, u64>::empty()); }
+}
+proof fn lemma_ec_nz<K: Ord, V: Val<A>, A: Ord + Hash>(s: Map<K, V, A>, k: K)
+    requires s.wf(),
+    ensures nz(s.ec(k)),
+{
+    s.lemma_wf();
+    if !s.has(k) { assert(s.ec(k) == SMap::<A, u64>::empty()); }
 }
 
 pub proof fn lemma_map_len0<K, T>(m: SMap<K, T>)
